@@ -137,6 +137,7 @@ func checkID(ctx *pbt.Ctx, c IDCase) error {
 		return nil
 	}
 	tx := ref.ToLib(m)
+	ctx.After(ref.Intact(tx))
 	fq := ref.FeeQuoteToLib(c.Quote)
 	ctx.Key(ref.Encode(m, true), []byte(fmt.Sprint(c.Quote.Std, c.Quote.Data)))
 
